@@ -249,7 +249,9 @@ func runC11(tape *kernel.Tape) *kernel.Outcome {
 	// The reader's own limit on one frame is readmax: 64 KiB or 1 MiB when
 	// drawn; the default (0) is zngio.MaxSize = 1 GiB, within which a damaged
 	// length field may legitimately ask for a large buffer.
-	case desc.AllocMB > 512 && (desc.ReadMax != 0 || desc.AllocMB > 3*1024):
+	// VNG has limits of its own (vng.MaxMetaSize 100 MiB, MaxDataSize 2 GiB);
+	// readmax is an option of the ZNG reader only.
+	case desc.AllocMB > 512 && ((desc.ReadMax != 0 && format != "vng") || desc.AllocMB > 3*1024):
 		out.Violation = kernel.Violatef(sig+":allocation:"+format, "reading %d bytes of damaged %s (%s, readmax %d) allocated %d MiB", len(data), format, desc.Mutation, desc.ReadMax, desc.AllocMB)
 	case res.Leaked:
 		out.Violation = kernel.Violatef(sig+":goroutine-leak:"+format, "reading %d bytes of damaged %s (%s; error %v; cancel at %d): goroutines were left blocked after the reader was closed", len(data), format, desc.Mutation, readErr, cancelAt)
